@@ -155,6 +155,9 @@ fn do_validate<'a>(
     env: &'a RefCell<Environment<StdoutWrapper, StderrWrapper>>,
 ) -> bool {
     println!("Validating {}", file);
+    // Every file starts with a clean slate. Otherwise the assertions, and
+    // the failures, of the files tested before it would count against it.
+    env.borrow_mut().assert_results = ucglib::build::AssertCollector::new();
     match build_file(file, true, strict, import_paths, env) {
         Ok(b) => {
             if b.assert_results() {
